@@ -3892,10 +3892,13 @@ LEAN_OBLIGATIONS.update({
                      "Tumfl.Props.C12_untouched", "Tumfl.Props.C12_errors", "Tumfl.Props.C04_lookup_none", "Tumfl.Props.C12_stmt_cycles_terminate",
                      "Tumfl.Props.C12_cycle_example", "Tumfl.Props.C04_terminates",
                      "Tumfl.Props.C12_nothing_left", "Tumfl.Props.C12_ok_no_bad_require", "Tumfl.Props.C04_faithful",
-                     "Tumfl.Props.C12_error_designates", "Tumfl.Props.C12_tree_is_files"],
+                     "Tumfl.Props.C12_error_designates", "Tumfl.Props.C12_tree_is_files",
+                     "Tumfl.Props.C12_complete", "Tumfl.Props.C12_offending_never_ok", "Tumfl.Props.C12_dependency_error_stable", "Tumfl.Props.C12_complete_parses",
+                     "Tumfl.Props.C12_complete_example"],
         extractors=["Ladder", "LexTables"],
         tie_names=["T2:resolve (faulty trees: exception kind and token of the offending call)"],
-        partial_hypotheses=["statement-level cycles terminate: proved (C12_stmt_cycles_terminate); nothing is silently left behind: proved (C12_nothing_left - no call of the bare name require remains in a successfully resolved tree, whatever its arguments); the error is raised FOR THAT CALL: proved (C12_error_designates - the token of every InvalidDependencyError is the token of a really uninlinable bare-name require call in a file of the dependency tree); that it is the FIRST such call in visit order: T2 and oracle streams; is_file on a directory: the abstract "
+        partial_hypotheses=["the main clause, proved on the model: if resolution succeeds no file of the dependency tree contains an uninlinable require call (C12_complete) - one such call anywhere and "
+                            "every recursion budget ends in an error (C12_offending_never_ok); statement-level cycles terminate: proved (C12_stmt_cycles_terminate); nothing is silently left behind: proved (C12_nothing_left - no call of the bare name require remains in a successfully resolved tree, whatever its arguments); the error is raised FOR THAT CALL: proved (C12_error_designates - the token of every InvalidDependencyError is the token of a really uninlinable bare-name require call in a file of the dependency tree); that it is the FIRST such call in visit order: T2 and oracle streams; is_file on a directory: the abstract "
                             "file system has files and directories as disjoint sets, tied by T2 on real trees with directory traps"],
     ),
     "C20": dict(
